@@ -128,7 +128,7 @@ def run_case(case, opts):
                 h = fresh("j")
                 try:
                     new = apply_actions(dom, states[sh], [ActionCall(name=n, grounded_parameters=list(a)) for n, a in p],
-                                        allow_inapplicable_actions=allow)
+                                        allow_inapplicable_actions=allow, problem_objects=prob.objects)
                     ev.append({"c": "ApplyJoint", "d": "d", "u": "p", "s": sh, "members": p, "allow": allow, "h": h,
                                "out": {"st": pylib.project_state(new)}})
                     states[h] = new
@@ -142,7 +142,7 @@ def run_case(case, opts):
                 plan.append(members)
                 try:
                     cur = apply_actions(dom, cur, [ActionCall(name=n, grounded_parameters=list(a)) for n, a in members if n != "nop"],
-                                        allow_inapplicable_actions=True)
+                                        allow_inapplicable_actions=True, problem_objects=prob.objects)
                 except Exception:  # noqa: BLE001
                     break
             if not plan:
